@@ -432,7 +432,9 @@ def idxPositions (len : Nat) : List Idx → Option (List Nat)
   | .pos n :: rest => if n < len then (idxPositions len rest).map (n :: ·) else none
   | .slice a b :: rest =>
     let stop := min (b.getD len) len
-    (idxPositions len rest).map ((List.range stop).drop a ++ ·)
+    -- a bounded slice must be filled completely (repair of F-C13-10): IOError otherwise
+    if (match b with | some b' => decide (stop - a < b' - a) | none => false) then none
+    else (idxPositions len rest).map ((List.range stop).drop a ++ ·)
 
 /-! #### pragmas (`ITPDirector.parse_pragma`, `is_pragma`, the check in `finalize`) -/
 
